@@ -74,6 +74,11 @@ def s_link(v):
         t = TARGETS[v.choice(f't{i + 1}', len(TARGETS))]
         if t is not None:
             fs.add_symlink(slot, t)
+    # a sibling whose name merely starts like "a", holding a link to "a" (not a loop)
+    fs.add_dir('ax')
+    fs.add_file('ax/w', size=1, digest='w')
+    if v.bool('ax_link'):
+        fs.add_symlink('ax/peer', 'a')
     ig = IGNORES[v.choice('ignore', len(IGNORES))]
     c.ignores = [ig] if ig is not None else []
     c.ofs = v.bool('one_file_system')
@@ -177,6 +182,7 @@ def conditions(tier):
                   'a/b/l1, c/l2, l3 whose targets are symbolic over {none, root, a, a/b, c}; '
                   'model walk with fuel (exhaustion = non-termination)',
             bounds='3 link slots x 5 targets (self/parent/ancestor/sibling/mutual/chains), '
+                   'look-alike sibling ax with an optional link to a, '
                    'IGNORE on a link or above it or none (6 choices), directory c on another '
                    'device or not, empty mount point a/mnt on another device or not, '
                    'one-file-system on/off'))
